@@ -87,8 +87,20 @@ class Stepper:
         self.h = hashlib.blake2b(digest_size=12)
         self.ilv = hashlib.blake2b(digest_size=8)
         self.cur = observe.snapshot(ctx.sut.seq)
+        self.fatal = False
+        self.nonfatal = tuple(ctx.profile.get("nonfatal", ()))
+        self._seen_nonfatal: set = set()
         for o in ctx.oracles:
             o.begin(ctx, self.cur)
+
+    def _record(self, oid: str, step: int, msg: str) -> None:
+        if oid in self.nonfatal:
+            if oid in self._seen_nonfatal:
+                return
+            self._seen_nonfatal.add(oid)
+        else:
+            self.fatal = True
+        self.violations.append(Violation(oid, step, msg))
 
     def step(self, actor: str, op: dict, tag: str | None = None) -> ops.Outcome:
         ctx = self.ctx
@@ -124,7 +136,7 @@ class Stepper:
                     f"{ops.op_brief(op)[:200]}: {traceback.format_exc()[-1500:]}"
                 )
             for oid, msg in vs or ():
-                self.violations.append(Violation(oid, i, msg))
+                self._record(oid, i, msg)
         self.h.update(
             f"{i}|{actor}|{ops.op_brief(op)}|{out.brief()}|{post.digest()}\n".encode()
         )
@@ -137,7 +149,7 @@ class Stepper:
     def finish(self) -> None:
         for o in self.ctx.oracles:
             for oid, msg in o.end(self.ctx, self.cur) or ():
-                self.violations.append(Violation(oid, self.ctx.step_no, msg))
+                self._record(oid, self.ctx.step_no, msg)
 
 
 def _sim_ns(snap: observe.Snap) -> int:
@@ -218,7 +230,7 @@ def run_generated(
     observer = A.ObserverActor()
     max_steps = profile["max_steps"]
 
-    while ctx.step_no < max_steps and not st.violations:
+    while ctx.step_no < max_steps and not st.fatal:
         snap = st.cur
         cands: list[tuple[Any, float]] = []
         if setup.runnable(snap):
@@ -266,15 +278,17 @@ def run_trace(
     profile: dict,
     oracle_factory: Callable[[], list],
     stop_on_violation: bool = True,
+    want: str | None = None,
 ) -> RunResult:
-    """Replay a concrete trace. No PRNG involved."""
+    """Replay a concrete trace. No PRNG involved. Stops at the first fatal
+    violation, or as soon as the wanted oracle id has fired."""
     env.fresh_run_state()
     observe.reset_run_caches()
     ctx = Ctx(world, profile, oracle_factory())
     st = Stepper(ctx)
     for rec in trace:
         st.step(rec.get("actor", "replay"), rec["op"], rec.get("tag"))
-        if st.violations and stop_on_violation:
+        if stop_on_violation and (st.fatal or (want and any(v.oracle == want for v in st.violations))):
             break
     st.finish()
     return _result(ctx, st, None)
@@ -335,12 +349,12 @@ def run_enumerated(
         for tag, op in cat:
             ctx.stats["fault/bad/configured"] += 1
             st.step("fault", op, "bad/" + tag)
-            if st.violations:
+            if st.fatal:
                 return
         for op in c09.observer_catalogue(st.cur, ctx, fr):
             ctx.stats["fault/observe/configured"] += 1
             st.step("observer", op, "observe/" + op["op"])
-            if st.violations:
+            if st.fatal:
                 return
         if fr.random() < profile.get("draw_p", 0.03):
             st.step("observer", {"op": "obs_draw", "mode": "input+output", "shifts": True}, "observe/obs_draw")
@@ -353,7 +367,7 @@ def run_enumerated(
             st.step("fault", op, "restart/" + k)
 
     probes()
-    while base < max_base and not st.violations:
+    while base < max_base and not st.fatal:
         snap = st.cur
         cands = []
         if setup.runnable(snap):
@@ -379,7 +393,7 @@ def run_enumerated(
         st.step(getattr(chosen, "name", "?"), op)
         base += 1
         ctx.stats["base_calls"] += 1
-        if not st.violations:
+        if not st.fatal:
             probes()
     st.finish()
     return _result(ctx, st, nontrivial_fn)
@@ -406,7 +420,7 @@ def run_walk(
     pr = stream(seed, prop, run, "programs")
     il = stream(seed, prop, run, "interleave")
     actors = actors_fn(ctx, pr)
-    while ctx.step_no < profile["max_steps"] and not st.violations:
+    while ctx.step_no < profile["max_steps"] and not st.fatal:
         snap = st.cur
         cands = [(a, w) for a, w in actors if a.runnable(snap)]
         if not cands:
